@@ -146,6 +146,18 @@ func (b *builder) scenarios(seed uint64) []*scenario {
 		add(&scenario{Name: "only-ca-secret", Class: "partial:only-ca-secret", Cfg: chartConv, world: w})
 	}
 
+	// 4b. only the CA secret, holding a complete and valid CA that expires in 90 days: an existing
+	// authority is kept whatever its remaining life
+	{
+		crt, err := shortLivedCA(b.own, 90)
+		if err != nil {
+			panic(err)
+		}
+		w := newWorld(seed*100 + 15)
+		w.MustSeed("user", secretObj(chart.Namespace, chart.CASecret, map[string][]byte{"tls.crt": crt, "tls.key": b.own.CAKey}))
+		add(&scenario{Name: "only-short-lived-ca-secret", Class: "partial:only-ca-secret", Cfg: chartConv, world: w})
+	}
+
 	// 5. CA + server secret whose ca.crt key is missing; client secret absent; ESS certificate
 	{
 		w := newWorld(seed*100 + 6)
@@ -242,8 +254,9 @@ func (b *builder) scenarios(seed uint64) []*scenario {
 			_ = unstructured.SetNestedStringMap(o, map[string]string{"example.org/note": "do not touch"}, "metadata", "annotations")
 		})
 		inst := []pkgObj{
-			{Kind: "Provider", Name: "my-gcp", Source: "crossplane-contrib/provider-gcp:v0.1.0", Custom: true},
-			{Kind: "Configuration", Name: "platform", Source: "acme/configuration-platform@" + digA, Custom: true},
+			// custom object names are DNS subdomains: dots and more than 63 characters are legal
+			{Kind: "Provider", Name: "upbound.my-gcp", Source: "crossplane-contrib/provider-gcp:v0.1.0", Custom: true},
+			{Kind: "Configuration", Name: "platform-configuration-of-the-acme-corporation-for-every-team-and-region-eu", Source: "acme/configuration-platform@" + digA, Custom: true},
 			{Kind: "Function", Name: "fn-pt", Source: "crossplane-contrib/function-patch-and-transform", Custom: true},
 		}
 		seedPkgs(w, inst)
